@@ -215,6 +215,16 @@ func (e *Engine) evalBuiltin(name string, cx *ast.CallExpr, st *State) Value {
 			return VSlice{Arr: arr, Len: n, Elem: u.Elem()}
 		}
 		unsup("make(%s) at %s", t, e.src(cx))
+	case "delete":
+		m, ok := e.eval(cx.Args[0], st).(VMap)
+		if !ok {
+			unsup("delete on non-map")
+		}
+		k := term(e.eval(cx.Args[1], st))
+		n := m
+		n.Has = mkStoreK(m.Has, k, tFalse)
+		e.assignTo(cx.Args[0], n, st)
+		return VTuple{}
 	case "close":
 		s, ok := e.eval(cx.Args[0], st).(VStream)
 		if !ok {
@@ -803,11 +813,21 @@ func (e *Engine) callContract(c *Contract, fn *types.Func, recvName string, recv
 		for _, n := range cl.Names {
 			v, ok := names[n]
 			if !ok {
+				// dotted path (e.g. b.report): evaluate as a spec expression in the callee's name space
+				if sx, err := parseSpec(n); err == nil {
+					v = e.evalSpec(sx, mkEnv(st, nil))
+					ok = true
+				}
+			}
+			if !ok {
 				unsup("modifies %s: unknown name in contract %s", n, callee)
 			}
 			if vt, ok := v.(VTerm); ok && vt.T.Sort == SRef {
 				if _, isIface := vt.Typ.Underlying().(*types.Interface); isIface || strings.HasPrefix(c.Key, "interface ") {
 					// interface-level contract: the object's ghost abstract state changes
+					if !e.localRefs[vt.T.String()] && !e.modifiesOK[vt.T.String()] {
+						e.staticObl("frame/call-modifies", where, false, callee+" modifies the abstract state of "+vt.T.String()+", which the contract of "+e.fi.Key+" does not list under modifies", nil)
+					}
 					e.havocGhostView(st, vt.T)
 					continue
 				}
